@@ -439,6 +439,8 @@ func (env *CEnv) evalCall(x *ast.CallExpr) (Value, types.Type) {
 				inner.names[v] = bound{IntV{qn}, tInt}
 			}
 			var body string
+			c.inQuant++
+			defer func() { c.inQuant-- }()
 			switch len(rest) {
 			case 1:
 				b, _ := inner.eval(rest[0])
@@ -563,6 +565,8 @@ func (env *CEnv) seqEq(a, b Value, at types.Type) string {
 	conj = append(conj, eq(as.Len, bs.Len))
 	c.nq++
 	k := fmt.Sprintf("k_q%d", c.nq)
+	c.inQuant++
+	defer func() { c.inQuant-- }()
 	for _, l := range leaves(elem) {
 		m := c.heapGet(env.s, memKey(elem)+l, sA2)
 		conj = append(conj, forall([]string{k}, implies(and(le("0", k), lt(k, as.Len)), eq(sel(sel(m, as.Ref), add(as.Off, k)), sel(sel(m, bs.Ref), add(bs.Off, k))))))
